@@ -18,19 +18,108 @@ _rec = [None]      # active loop recorder (loops.py)
 _canon_memo = {}
 
 
-def _mono_order(t):
-    if z3.is_app(t) and t.decl().kind() == z3.Z3_OP_MUL:
-        ch = sorted(t.children(), key=lambda c: (not z3.is_int_value(c), c.sexpr()))
-        return z3.Product(ch) if len(ch) > 1 else ch[0]
-    return t
-
-
 def _poly_order(r):
-    """order the monomials of an expanded integer polynomial by their text (z3 orders them by creation time)"""
-    if z3.is_app(r) and r.decl().kind() == z3.Z3_OP_ADD:
-        ch = sorted((_mono_order(c) for c in r.children()), key=lambda c: (not z3.is_int_value(c), c.sexpr()))
-        return z3.Sum(ch)
-    return _mono_order(r)
+    """normal form of an expanded integer polynomial: nested products flattened, like monomials combined, monomials
+    ordered by their text (z3 orders them by creation time and keeps -1*(b*nx) + b*nx apart)"""
+    terms = r.children() if z3.is_app(r) and r.decl().kind() == z3.Z3_OP_ADD else [r]
+    acc = {}
+    const = 0
+    for t in terms:
+        coef, fac = 1, []
+        st = [t]
+        while st:
+            x = st.pop()
+            if z3.is_int_value(x):
+                coef *= x.as_long()
+            elif z3.is_app(x) and x.decl().kind() == z3.Z3_OP_MUL:
+                st.extend(x.children())
+            elif z3.is_app(x) and x.decl().kind() == z3.Z3_OP_UMINUS:
+                coef = -coef
+                st.append(x.arg(0))
+            else:
+                fac.append(x)
+        if not fac:
+            const += coef
+            continue
+        fac.sort(key=lambda c: c.sexpr())
+        key = tuple(c.sexpr() for c in fac)
+        if key in acc:
+            acc[key] = (acc[key][0] + coef, fac)
+        else:
+            acc[key] = (coef, fac)
+    out = []
+    for key in sorted(acc):
+        coef, fac = acc[key]
+        if coef == 0:
+            continue
+        m = fac[0] if len(fac) == 1 else z3.Product(fac)
+        out.append(m if coef == 1 else coef * m)
+    if const != 0 or not out:
+        out.insert(0, z3.IntVal(const))
+    return out[0] if len(out) == 1 else z3.Sum(out)
+
+
+def guarded(c, then, other):
+    """ite(c, then(), other()) with the guard decided inline when the integer facts settle it, and each branch
+    evaluated under its condition (so that the index arithmetic inside can rely on it)"""
+    if c is True:
+        return then()
+    if c is False:
+        return other()
+    d = T.decide(c)
+    if d is True:
+        return then()
+    if d is False:
+        return other()
+    s = cur()
+    cz = T.tz(c)
+    ncz = z3.Not(cz)
+    T._KEEP.append((cz, ncz))       # ids of these terms key memo tables: they must never be reused
+    s.pc.append(cz)
+    s.lctx.append(cz.get_id())
+    try:
+        v1 = then()
+    finally:
+        s.pc.pop()
+        s.lctx.pop()
+    s.pc.append(ncz)
+    s.lctx.append(ncz.get_id())
+    try:
+        v2 = other()
+    finally:
+        s.pc.pop()
+        s.lctx.pop()
+    return T.ite(c, v1, v2)
+
+
+_ite_memo = {}
+
+
+def _split_ite(i):
+    """(c, i1, i2) with i == ite(c, i1, i2) for the first integer if-then-else inside the index term i, else None"""
+    k = i.get_id()
+    if k in _ite_memo:
+        return _ite_memo[k]
+    found = None
+    st, seen = [i], set()
+    while st:
+        e = st.pop()
+        if e.get_id() in seen:
+            continue
+        seen.add(e.get_id())
+        if z3.is_app(e):
+            if e.decl().kind() == z3.Z3_OP_ITE and e.sort() == z3.IntSort():
+                found = e
+                break
+            if e.decl().kind() == z3.Z3_OP_UNINTERPRETED and e.num_args() > 0:
+                continue
+            st.extend(e.children())
+    res = None
+    if found is not None:
+        res = (found.arg(0), z3.substitute(i, (found, found.arg(1))), z3.substitute(i, (found, found.arg(2))))
+    _ite_memo[k] = res
+    _ite_memo[("keep", k)] = i
+    return res
 
 
 def _canon_index(i):
@@ -99,12 +188,29 @@ class SymArray:
 
     def at(self, i):
         """element term at index i (no bounds obligation; see get())"""
+        sub = getattr(cur(), "idx_subst", None)
+        if sub and isinstance(i, z3.ArithRef):
+            i = z3.substitute(i, *sub)
         if isinstance(i, z3.ArithRef) and not z3.is_const(i):
             i = _canon_index(i)
         k = _key(i)
+        lc = cur().lctx
+        if lc:
+            k = (k, tuple(lc))      # values simplified under a local branch condition are valid in that context only
         m = self._memo.get(k)
         if m is not None:
             return m
+        if isinstance(i, z3.ArithRef) and not z3.is_const(i):
+            sp = _split_ite(i)
+            if sp is not None:
+                # a[ite(c, i1, i2)] = ite(c, a[i1], a[i2]), each branch evaluated under its condition
+                c, i1, i2 = sp
+                d = T.decide(c)
+                if d is True:
+                    return self.at(i1)
+                if d is False:
+                    return self.at(i2)
+                return guarded(c, lambda: self.at(i1), lambda: self.at(i2))
         v = self._fn(i)
         if self.inv is not None:
             f = self.inv(i)
@@ -166,10 +272,7 @@ class SymArray:
         if step == 1:
             def fn(t, old=old):
                 c = T.band(T.le(lo, t), T.lt(t, hi))
-                if c is False:
-                    return old(t)
-                val = vat(T.sub(t, lo)) if vat else v
-                return T.ite(c, val, old(t))
+                return guarded(c, lambda: (vat(T.sub(t, lo)) if vat else v), lambda: old(t))
         else:
             def fn(t, old=old):
                 d = T.sub(t, lo)
@@ -178,10 +281,7 @@ class SymArray:
                     # explicit Euclidean witness  t - lo = k*step + r  (unique): no div/mod terms
                     k, r = w
                     c = T.band(T.le(lo, t), T.lt(t, hi), T.eq(r, 0))
-                    if c is False:
-                        return old(t)
-                    val = vat(k) if vat else v
-                    return T.ite(c, val, old(t))
+                    return guarded(c, lambda: (vat(k) if vat else v), lambda: old(t))
                 with T.no_safety():
                     c = T.band(T.le(lo, t), T.lt(t, hi), T.eq(T.mod(d, step), 0))
                     if c is False:
@@ -207,10 +307,7 @@ class SymArray:
 
         def fn(t, old=old):
             c, k = idx.inverse(t)
-            if c is False:
-                return old(t)
-            val = vat(k) if vat else v
-            return T.ite(c, val, old(t))
+            return guarded(c, lambda: (vat(k) if vat else v), lambda: old(t))
         self._set_fn(fn)
 
     # -- derived -------------------------------------------------------------------
@@ -230,12 +327,23 @@ class SymArray:
         tier = getattr(self, "inv_tier", 0)
 
         def at(i):
+            sub = getattr(cur(), "idx_subst", None)
+            if sub and isinstance(i, z3.ArithRef):
+                i = z3.substitute(i, *sub)
             if isinstance(i, z3.ArithRef) and not z3.is_const(i):
                 i = _canon_index(i)
             k = _key(i)
+            lc = cur().lctx
+            if lc:
+                k = (k, tuple(lc))
             m = memo.get(k)
             if m is not None:
                 return m
+            if isinstance(i, z3.ArithRef) and not z3.is_const(i):
+                sp = _split_ite(i)
+                if sp is not None:
+                    c, i1, i2 = sp
+                    return guarded(c, lambda: at(i1), lambda: at(i2))
             v = fn(i)
             if inv is not None:
                 f = inv(i)
@@ -325,23 +433,74 @@ def find_quotient(d, a):
     session, for a candidate quotient q among the integer constants of d (and q+-1); None if not found.
     Replaces a Euclidean-division skolem by an explicit witness (the division is unique)."""
     if not T.is_sym(d):
+        # concrete dividend, symbolic divisor
+        if T.is_sym(a) and isinstance(d, int):
+            if T.decide(T.band(T.le(0, d), T.lt(d, a))) is True:
+                return (0, d)
+            if d < 0 and T.decide(T.le(-d, a)) is True:
+                return (-1, T.add(d, a))
         return None
-    key = (d.get_id(), a.get_id() if T.is_sym(a) else a, len(cur().facts))
+    key = (d.get_id(), a.get_id() if T.is_sym(a) else a, len(cur().facts), tuple(q.get_id() for q in cur().pc if z3.is_expr(q)))
     if key in _quot_memo:
         return _quot_memo[key]
     res = None
-    for c in int_consts(d):
+    cands = [z3.IntVal(0)] + list(int_consts(d))
+    sym = None
+    if T.is_sym(a):
+        # divisor  a = s + k  (s a symbol, k an integer): polynomial division of d by s gives the candidate quotient
+        az = z3.simplify(T.tz(a), som=True)
+        if z3.is_const(az) and not z3.is_int_value(az):
+            sym = az
+        elif z3.is_app(az) and az.decl().kind() == z3.Z3_OP_ADD and az.num_args() == 2:
+            x, y = az.arg(0), az.arg(1)
+            if z3.is_int_value(x) and z3.is_const(y):
+                sym = y
+            elif z3.is_int_value(y) and z3.is_const(x):
+                sym = x
+    if sym is not None:
+        dd = z3.simplify(T.tz(d), som=True)
+        terms = dd.children() if z3.is_app(dd) and dd.decl().kind() == z3.Z3_OP_ADD else [dd]
+        qs = []
+        for t in terms:
+            fac = []
+            st = [t]
+            while st:
+                x = st.pop()
+                if z3.is_app(x) and x.decl().kind() == z3.Z3_OP_MUL:
+                    st.extend(x.children())
+                else:
+                    fac.append(x)
+            hit = [k for k, x in enumerate(fac) if x.eq(sym)]
+            if hit:
+                rest = [x for k, x in enumerate(fac) if k != hit[0]]
+                qs.append(z3.IntVal(1) if not rest else (rest[0] if len(rest) == 1 else z3.Product(rest)))
+        if qs:
+            cands.insert(0, z3.simplify(z3.Sum(qs) if len(qs) > 1 else qs[0]))
+    rems = []
+    for c in cands:
         for q in (c, c + 1, c - 1):
             r = z3.simplify(T.tz(d) - q * T.tz(a), som=True)
-            if any(x.eq(c) for x in int_consts(r)) and T.is_sym(a):
-                continue
             rr = T.conc_value(r)
             rterm = rr if rr is not None else r
+            rems.append((q, rterm))
             if T.decide(T.band(T.le(0, rterm), T.lt(rterm, a))) is True:
                 res = (z3.simplify(q), rterm)
                 break
         if res:
             break
+    if res is None and T.is_sym(a):
+        # conditional witness: the candidate remainder is known to lie in [-a, a) or [0, 2a): borrow / carry one
+        for q, r in rems[:9]:
+            if not T.is_sym(r):
+                continue
+            if T.decide(T.band(T.le(T.neg(a), r), T.lt(r, a))) is True:
+                neg = r < 0
+                res = (z3.If(neg, q - 1, q), z3.If(neg, r + T.tz(a), r))
+                break
+            if T.decide(T.band(T.le(0, r), T.lt(r, T.mul(2, a)))) is True:
+                big = r >= T.tz(a)
+                res = (z3.If(big, q + 1, q), z3.If(big, r - T.tz(a), r))
+                break
     _quot_memo[key] = res
     _quot_memo[("keep", key)] = (d, a)
     return res
@@ -364,7 +523,11 @@ class IndexTable(SymArray):
         # Euclidean division  t - base = k*stride + r, 0 <= r < stride: explicit witness if one is found, else skolem
         s = cur()
         d = T.sub(t, b)
-        w = find_quotient(T.simp(d) if T.is_sym(d) else d, st) if T.is_sym(d) else None
+        if T.is_sym(t) and T.decide(T.gt(st, 0)) is True:
+            # hull of the table: [base, base + stride*(length-1)]
+            if T.decide(T.lt(t, b)) is True or T.decide(T.gt(t, T.add(b, T.mul(st, T.sub(self.length, 1))))) is True:
+                return False, 0
+        w = find_quotient(T.simp(d) if T.is_sym(d) else d, st)
         if w is not None:
             k, r = w
             return T.band(T.eq(r, 0), T.le(0, k), T.lt(k, self.length)), k
@@ -376,6 +539,9 @@ class IndexTable(SymArray):
             if not T.is_sym(d) and not T.is_sym(st):
                 k, r = d // st, d % st
             else:
+                import os
+                if os.environ.get("PYVC_SKDBG"):
+                    print("DBG skolem(table)", T.simp(d), "stride", st, "pc", [str(q)[:60] for q in s.pc][-3:], flush=True)
                 k = s.fresh("eq", "Int")
                 r = s.fresh("er", "Int")
                 s.add_fact(z3.Implies(T.tz(st) > 0,
